@@ -344,7 +344,7 @@ def m_range(it, args, kw):
 @model(builtins.enumerate)
 def m_enumerate(it, args, kw):
     start = args[1] if len(args) > 1 else kw.get("start", 0)
-    seq = args[0]
+    seq = it.resolve_iterable(args[0])
     if isinstance(seq, SSeq) and not z3.is_int_value(z3.simplify(to_int(seq.length))):
         return SSeq(seq.length, lambda i, seq=seq: (to_int(i) + start, seq.get(i)), name="enumerate(%s)" % seq.name)
     items = it.iterate(seq)
@@ -563,6 +563,46 @@ def m_object_new(it, args, kw):
 @model(object.__init__)
 def m_object_init(it, args, kw):
     return None
+
+
+@model(builtins.chr)
+def m_chr(it, args, kw):
+    v = args[0]
+    if is_z3(v):
+        _assume(it, "chr(n) is the one-character string with code point n (0 <= n < 0x110000)")
+        code = to_int(v)
+        if not it.path.branch(z3.And(code >= 0, code < 0x110000)):
+            raise PyRaise(ValueError, ("chr() arg not in range(0x110000)",))
+        a = Atom("chr(%s)" % it.path.fresh("c", z3.IntSort()), nonempty=True, tags={"char"}, zs=z3.StrFromCode(code))
+        a.code = code
+        return SStr([a])
+    return it.native(chr, [v], {})
+
+
+@model(builtins.ord)
+def m_ord(it, args, kw):
+    v = args[0]
+    if isinstance(v, SStr):
+        if len(v.parts) == 1 and isinstance(v.parts[0], Atom) and hasattr(v.parts[0], "code"):
+            return v.parts[0].code
+        raise Unsupported("ord() of symbolic string")
+    return it.native(ord, [v], {})
+
+
+import datetime as _datetime
+
+_ORD = z3.Function("date_ordinal", z3.IntSort(), z3.IntSort(), z3.IntSort(), z3.IntSort())
+
+
+@model(_datetime.date)
+def m_date(it, args, kw):
+    if deep_concrete(args) and deep_concrete(kw):
+        return it.native(_datetime.date, args, kw)
+    if len(args) != 3:
+        raise Unsupported("datetime.date with symbolic keyword arguments")
+    _assume(it, "datetime.date(y, m, d) denotes a proleptic Gregorian day; its ordinal is an (uninterpreted) function of y, m, d")
+    y, m, d = [to_int(a) for a in args]
+    return SObj(_datetime.date, "date", year=y, month=m, day=d, _ordinal=_ORD(y, m, d))
 
 
 def install():
